@@ -1,6 +1,6 @@
 (* C03 property theorems. This file contains only statements closed by
    [exact lemma] and Print Assumptions. *)
-From V Require Import Common.Base C03.Num C03.SpecOps C03.NumProofs C03.Tree C03.Fold C03.MiniJS C03.TreeProofs C03.Refuted.
+From V Require Import Common.Base C03.Num C03.SpecOps C03.NumProofs C03.Tree C03.Fold C03.MiniJS C03.TreeProofs C03.TreeProofs2 C03.Refuted.
 
 (* js_ast.ToInt32 computes ECMA-262 ToInt32 for every float64 (finite dyadic of
    any magnitude, NaN, infinities), whatever Go's implementation-defined
@@ -51,6 +51,32 @@ Theorem to_boolean_sound :
     (forall v, out = Val v -> truthy v = b) /\ (se = true -> tr' = tr /\ exists v, out = Val v).
 Proof. exact to_boolean_sound_all. Qed.
 Print Assumptions to_boolean_sound.
+
+(* ToNullOrUndefinedWithSideEffects is sound over MiniJS, for every world in which
+   the operators left abstract never produce null/undefined (what ECMA-262
+   guarantees of + - ~, arithmetic, relational and equality operators) *)
+Theorem to_nullish_sound :
+  forall unbound lenv genv oracle un_sem bin_sem,
+    (forall op v t tr' w, un_sem op v t = (tr', Val w) -> nullish w = false) ->
+    (forall op a b t tr' w, bin_sem op a b t = (tr', Val w) -> nullish w = false) ->
+    forall e tr tr' out b se,
+    wf_flags e ->
+    eval unbound lenv genv oracle un_sem bin_sem tr e = Some (tr', out) ->
+    to_nullish e = (b, se, true) ->
+    (forall v, out = Val v -> nullish v = b) /\ (se = true -> tr' = tr /\ exists v, out = Val v).
+Proof. exact to_nullish_sound_all. Qed.
+Print Assumptions to_nullish_sound.
+
+(* JoinWithLeftAssociativeOp(op, a, b) evaluates exactly like (a op b) for the
+   short-circuit operators it is used with (&&, ||, ??): same trace, same
+   completion, in every world *)
+Theorem join_left_assoc_equiv :
+  forall unbound lenv genv oracle un_sem bin_sem op, short_circuit op ->
+    forall b a tr,
+      eval unbound lenv genv oracle un_sem bin_sem tr (join_left op a b)
+      = eval unbound lenv genv oracle un_sem bin_sem tr (EBin op a b).
+Proof. exact join_left_assoc_equiv_all. Qed.
+Print Assumptions join_left_assoc_equiv.
 
 (* CheckEqualityIfNoSideEffects on two literals (also inlined enum constants)
    answers what IsStrictlyEqual / IsLooselyEqual compute on their values: -0 == 0,
